@@ -53,6 +53,15 @@ KNOWN = {
     "comma_before_operator": "C11j a comma that is directly followed by a binary operator or `=` (`f 1, / 2`: an elided "
                              "argument in a parenthesis-free call) is dropped: the output parses to a different tree or not at "
                              "all",
+    "comment_before_else_with_comment": "C11k a comment line directly before an `else` that has a trailing comment: both comments "
+                                        "are attached to `else` (`else # note` / `  # eol`) and the else body is indented one "
+                                        "level too deep; the next pass re-indents it (not idempotent)",
+    "minus_after_block_expression": "C11l a binary operator whose left operand is a multi-line block expression (reachable only "
+                                    "through parser defect C10b: `x = if c` / body / `else` / body / `-5`) is printed with the "
+                                    "operator line inside the last block: the output does not parse",
+    "export_value_on_next_line": "C11m `export` with its value on the following indented line, the value being a "
+                                 "parenthesis-free call whose argument is a map block (`export` / `  g foo: 1` / `  bar: 2`): "
+                                 "printed as `export g` / `  foo: 1`, which does not parse",
     "wrap_forced": "C11d when a line has to be wrapped (it is longer than line_length) the formatter can emit text that does "
                    "not parse or parses differently (`then` of a match arm on its own line, arguments of a parenthesis-free "
                    "call moved to continuation lines, ...) and is not idempotent",
@@ -246,6 +255,39 @@ def skip_family(quick, rng):
     return out
 
 
+def header_comment_family():
+    """comments around the continuation headers of a construct (`else`, `else if`, `catch`, `finally`, match / switch
+    `else` arms): a comment-only line directly before the header (at body / header / column-0 indentation) x a trailing
+    comment on the header x the form of the body"""
+    out = []
+    constructs = [
+        ("if-else", ["x = if data > 1", "  1"], "else", ["  2"], ["print x"]),
+        ("if-else-stmt", ["if data > 1", "  print 1"], "else", ["  print 2"], []),
+        ("if-elseif", ["if data > 5", "  print 1"], "else if data > 1", ["  print 2"], ["else", "  print 3"]),
+        ("if-else-inline-body", ["x = if data > 5", "  1"], "else", ["  if data > 1 then 2 else 3"], ["print x"]),
+        ("try-catch", ["try", "  throw 'e'"], "catch e", ["  print e"], []),
+        ("try-finally", ["try", "  throw 'e'", "catch e", "  print e"], "finally", ["  print 'f'"], []),
+        ("match-else", ["x = match data", "  1 then", "    'a'"], "  else", ["    'b'"], ["print x"]),
+        ("switch-else", ["x = switch", "  data == 1 then", "    'a'"], "  else", ["    'b'"], ["print x"]),
+        ("nested", ["f = ||", "  if data > 1", "    1"], "  else", ["    2"], ["print f()"]),
+    ]
+    for name, pre, header, body, post in constructs:
+        hind = len(header) - len(header.lstrip())
+        for before in (None, hind + 2, hind, 0):
+            for trail in ("", "  # eol", " #- e -#", "# glued"):
+                for blank in (False, True):
+                    if before is None and not trail:
+                        continue
+                    lines = ["data = 2"] + pre
+                    if before is not None:
+                        lines.append(" " * before + "# note")
+                    if blank and before is not None:
+                        lines.append("")
+                    lines += [header + trail] + body + post
+                    out.append((f"hdr:{name}", "\n".join(lines) + "\n"))
+    return out
+
+
 def slice_sources(rng, n):
     """programs made of `v<k> = <number> + <number> # c<k>` lines in random line-ending conventions: every number
     literal and every comment is re-read by the formatter through FormatContext::line_offsets + column"""
@@ -325,7 +367,8 @@ def class_c11e(src):
         if lines[k].strip() == "" or lines[k + 1].strip() != "":
             continue
         j = k + 1
-        while j < len(lines) and lines[j].strip() == "":
+        # the next CODE line (comment-only lines between the blank line and the body do not help)
+        while j < len(lines) and G.strip_trivia(lines[j].rstrip("\r")).strip() == "":
             j += 1
         if j < len(lines):
             ind = lambda l: len(l) - len(l.lstrip(" \t"))
@@ -361,12 +404,56 @@ def class_blank_mid_expression(src):
     return False
 
 
+def _code(line):
+    return G.strip_trivia(line.rstrip("\r"))
+
+
+def class_c11k(src):
+    """C11k: an `else` line that carries a trailing comment and is directly preceded (blank lines aside) by a
+    comment-only line"""
+    lines = src.split("\n")
+    for k, ln in enumerate(lines):
+        if _code(ln).strip() != "else" or "#" not in ln:
+            continue
+        i = k - 1
+        while i >= 0 and lines[i].strip() == "":
+            i -= 1
+        if i >= 0 and _code(lines[i]).strip() == "" and "#" in lines[i]:
+            return True
+    return False
+
+
+def class_c11l(src):
+    """C11l (through parser defect C10b): a line whose first token is `-` follows, at lower or equal indentation, a
+    statement that spans several lines -- the parser reads it as a binary minus whose LEFT operand is that whole
+    multi-line (block) expression"""
+    lines = src.split("\n")
+    ind = lambda l: len(l) - len(l.lstrip(" \t"))
+    prev = None
+    for ln in lines:
+        code = _code(ln)
+        if code.strip() == "":
+            continue
+        if code.lstrip().startswith("-") and prev is not None:
+            pc = _code(prev)
+            if ind(prev) > ind(ln) or pc.lstrip()[:1] in (")", "]", "}"):
+                return True
+        prev = ln
+    return False
+
+
 def known_classes(r, src):
     ks = [k for k, v in (r.get("classes") or {}).items() if v]
     if class_c11e(src):
         ks.append("blank_after_header")
     if class_blank_mid_expression(src):
         ks.append("comment_mid_expression")
+    if class_c11k(src):
+        ks.append("comment_before_else_with_comment")
+    if class_c11l(src):
+        ks.append("minus_after_block_expression")
+    if any(_code(l).strip() == "export" for l in src.split("\n")):
+        ks.append("export_value_on_next_line")
     return ks
 
 
@@ -478,6 +565,12 @@ def run(tier, seed):
         add_one(origin, text, True, 1 if quick else 6)
         if not quick:
             add_one("eol-crlf:" + origin, text.replace("\n", "\r\n"), True, 1)
+    # 9. comments around else / else if / catch / finally headers (a seeded sample in the quick tier)
+    hf = header_comment_family()
+    if quick:
+        hf = [hf[rng.below(len(hf))] for _ in range(60)] + hf[:20]
+    for origin, text in hf:
+        add_one(origin, text, True, 1 if quick else 4)
     # 6. number literals and comments on later lines, in every line-ending convention (runnable)
     for i, src in enumerate(slice_sources(rng, 40 if quick else 400)):
         add_one(f"slice-src:{i}", src, True, 1 if quick else 4)
@@ -534,6 +627,8 @@ def run(tier, seed):
         disagreements = correspondence(chk, binp, tier, rng)
 
     if os.environ.get("SYN_DEBUG"):
+        with open(os.path.join(C.BUILD, "c11-fails.json"), "w") as fh:
+            json.dump([p for _, p in fails], fh, ensure_ascii=False)
         hist = {}
         for _, p in fails:
             hist.setdefault(p["predicate_failed"][0][:50], []).append(p)
